@@ -71,6 +71,10 @@ MUTANTS = {
  "M10_popitem_nolock": lambda s: dedent_with(s, "    def popitem(self):"),
  "M11_clear_nolock": lambda s: dedent_with(s, "    def clear(self):"),
  "M12_lri_getitem_nolock": lambda s: dedent_with(s, "    def __getitem__(self, key):"),
+ "M13_repr_nolock": lambda s: s.replace("        with self._lock:\n            val_map = super().__repr__()\n", "        val_map = super().__repr__()\n"),
+ "M14_or_nolock": lambda s: dedent_with(s, "    def __or__(self, other):"),
+ "M15_len_nolock": lambda s: dedent_with(s, "    def __len__(self):"),
+ "M16_contains_nolock": lambda s: dedent_with(s, "    def __contains__(self, key):"),
  "H1_rename_locals": lambda s: s.replace("second_newest", "penultimate").replace("oldanchor", "former_anchor"),
  "H2_get_extra_lock": lambda s: s.replace("    def get(self, key, default=None):\n        try:\n            return self[key]\n        except KeyError:\n            self.soft_miss_count += 1\n            return default",
       "    def get(self, key, default=None):\n        with self._lock:\n            try:\n                return self[key]\n            except KeyError:\n                self.soft_miss_count += 1\n                return default"),
